@@ -1,8 +1,11 @@
 package synch
 
 import (
+	"bytes"
+	"compress/gzip"
 	"context"
 	"fmt"
+	"io"
 	"os"
 	"path/filepath"
 	"time"
@@ -183,6 +186,52 @@ func c16Readers(root string) *isaac.BlockItemReaders {
 	}
 
 	return readers
+}
+
+// c16ServeRecoded serves an item of the source with another transport compression than it is stored with.
+func c16ServeRecoded(readers *isaac.BlockItemReaders, height base.Height, t base.BlockItemType, plain bool, cb func(isaac.BlockItemReader) error) (bool, error) {
+	bfile, found, err := readers.ItemFile(height, t)
+	if err != nil || !found {
+		return found, err
+	}
+
+	f, found, err := readers.ReadFileFromItemFile(height, bfile)
+	if err != nil || !found {
+		return found, err
+	}
+
+	b, err := io.ReadAll(f)
+	_ = f.Close()
+
+	if err != nil {
+		return true, err
+	}
+
+	format := bfile.CompressFormat()
+
+	switch {
+	case plain && format == "gz":
+		gr, err := gzip.NewReader(bytes.NewReader(b))
+		if err != nil {
+			return true, err
+		}
+
+		if b, err = io.ReadAll(gr); err != nil {
+			return true, err
+		}
+
+		format = ""
+	case !plain && format == "":
+		var buf bytes.Buffer
+
+		gw := gzip.NewWriter(&buf)
+		_, _ = gw.Write(b)
+		_ = gw.Close()
+
+		b, format = buf.Bytes(), "gz"
+	}
+
+	return true, readers.ItemFromReader(t, bytes.NewReader(b), format, cb)
 }
 
 var c16Kinds = []string{
@@ -409,6 +458,17 @@ func c16Run(r *simkit.Run) {
 		items[i], items[j] = items[j], items[i]
 	}
 
+	// how each item travels: 0 as stored, 1 decompressed when stored compressed, 2 compressed when stored plain
+	transport := make([]int, len(items))
+
+	if r.Flag("source_recodes_items") {
+		for i := range transport {
+			transport[i] = []int{0, 1, 1, 2}[r.Choose(4)]
+		}
+
+		r.Probe("source_recodes_items")
+	}
+
 	nworkers := 1 + r.Choose(3)
 	failed := make([]error, len(items))
 
@@ -419,9 +479,23 @@ func c16Run(r *simkit.Run) {
 			for i := w; i < len(items); i += nworkers {
 				t := items[i]
 
-				_, found, err := srcReaders.Item(height, t, func(ir isaac.BlockItemReader) error {
-					return im.WriteItem(t, ir)
-				})
+				var (
+					found bool
+					err   error
+				)
+
+				switch transport[i] {
+				case 0:
+					_, found, err = srcReaders.Item(height, t, func(ir isaac.BlockItemReader) error {
+						return im.WriteItem(t, ir)
+					})
+				default:
+					// the source is free in how it sends an item: a compressed item may travel plain and a plain one
+					// compressed; the format travels with the stream
+					found, err = c16ServeRecoded(srcReaders, height, t, transport[i] == 1, func(ir isaac.BlockItemReader) error {
+						return im.WriteItem(t, ir)
+					})
+				}
 
 				switch {
 				case err != nil:
@@ -520,7 +594,7 @@ func init() {
 		Run:         c16Run,
 		Real:        []string{"isaacblock.BlockImporter + LocalFSImporter (files in a per-run directory)", "isaacblock.LocalFSWriter (writes the served block)", "isaac.BlockItemReaders + default item reader", "isaacblock.IsValidBlockFromLocalFS (the reference validator)", "isaacdatabase.LeveldbBlockWrite on memory storage", "voteproof / operation / state validation"},
 		Stub:        []string{"network between the sync source and the importer (items are read from the source's directory)", "database merge (flag)"},
-		Rule:        "each run writes a real block (0-4 operations and states, 1-3 voters) and serves it untouched or with one of 11 tamperings (extra/missing/replaced state or operation, foreign states or operations tree, proposal or voteproofs of another block, state of another height), written by the real LocalFSWriter so that checksums and the signed block map fit the tampered items while the manifest stays the real one. In half of the tampered runs the source instead hands out the untouched block map of the real block and serves the tampered items under it. 1-3 tasks import the items in a drawn order under seeded interleaving; when Save succeeds, IsValidBlockFromLocalFS must accept the stored block. distinct = event-log hash",
+		Rule:        "each run writes a real block (0-4 operations and states, 1-3 voters) and serves it untouched or with one of 11 tamperings (extra/missing/replaced state or operation, foreign states or operations tree, proposal or voteproofs of another block, state of another height), written by the real LocalFSWriter so that checksums and the signed block map fit the tampered items while the manifest stays the real one. In half of the tampered runs the source instead hands out the untouched block map of the real block and serves the tampered items under it. In half of the runs the source recodes items on the way (a compressed item travels plain, a plain one compressed; the format travels with the stream). 1-3 tasks import the items in a drawn order under seeded interleaving; when Save succeeds, IsValidBlockFromLocalFS must accept the stored block. distinct = event-log hash",
 		Assumptions: []string{"the chain of block maps pins the manifest, so tamperings keep the manifest of the real block", "the untouched block must be importable and valid (otherwise the harness is wrong: trouble, not a violation)"},
 	})
 }
